@@ -359,6 +359,42 @@ def uses_macro_variant(rng, p):
     return ' '.join(out)
 
 
+MACRO_TEMPLATES = ['push V', 'push V true', 'true push V', 'push V push V', 'push V not', 'push1 V check_sig x00',
+                   'push V check_sig_verify x00 true', 'if { push V } else { false }', 'def 1 { push V } call d1', 'false not']
+MACRO_ARGS = ['x0102', 'x0304', 'd7', 's"ab"']
+
+
+def macro_history(rng, stats, viol, src_model):
+    """the same macro NAME invoked with the same ARGUMENT symbols against different templates — in consecutive compiles of one
+    process, and inside one source (use in a ~ { } block, redefinition, use again): every source must compile to what the
+    source with the template written out compiles to (and to what the model says)"""
+    name = rng.choice(['mm', 'lock'])
+    arg = rng.choice(MACRO_ARGS)
+    tail = rng.choice(['', ' false', ' true not'])
+    for _ in range(3):
+        t = rng.choice(MACRO_TEMPLATES)
+        forms = [('!= %s [ V ] { %s } !%s [ %s ]%s' % (name, t, name, arg, tail), t.replace('V', arg) + tail)]
+        t2 = rng.choice(MACRO_TEMPLATES)
+        forms.append(('!= %s [ V ] { %s } push ~ { !%s [ %s ] } != %s [ V ] { %s } !%s [ %s ]%s' % (name, t, name, arg, name, t2, name, arg, tail),
+                      'push ~ { %s } %s%s' % (t.replace('V', arg), t2.replace('V', arg), tail)))
+        for src, flat in forms:
+            stats['compile:macro-history'] += 1
+            try:
+                want = P.compile_script(flat)
+            except BaseException:
+                continue
+            try:
+                got, outc = P.compile_script(src), 'ok'
+            except BaseException as e:
+                got, outc = None, type(e).__name__
+            if got != want:
+                stats['direct-fail'] += 1
+                if len(viol) < 8:
+                    viol.append(dict(what='a macro source does not compile to the bytes of the same source with the template written out (%s)' % outc,
+                                     source=src, written_out=flat, expected=want.hex(), got=(got.hex() if got is not None else None)))
+            src_model(src, got, outc, 'macro-history')
+
+
 MALFORMED = [
     'OP_COPY d200', 'OP_COPY d-129', 'push', 'if { true', 'true if true', 'def 0 { true', 'try { true', 'loop { true',
     'OP_FOO', 'push d', 'OP_PUSH1 d1', 'OP_MERKLEVAL x00', 'OP_SWAP d1', 'OP_SWAP d256 d1', 'OP_CHECK_MULTISIG x00 d1',
@@ -444,6 +480,8 @@ def c11_task(task):
         src_model_syms(syms, nm, got, outc, have_impl=True)
 
     for it in range(n):
+        if it % 8 == 0:
+            macro_history(rng, stats, viol, src_model)
         g = AstGen(rng, max_depth=rng.choice([1, 2, 3]))
         p = g.prog()
         ref = enc(p)
